@@ -134,6 +134,10 @@ func checkC10(c *Ctx) {
 	ruleHandOverReleasedOnError(c, "C10.m")
 	c.rule("C10.n", "a receive on a channel that only the read goroutine closes also watches the goroutine's termination", 1)
 	ruleReaderClosedChannelsSelected(c, "C10.n")
+	c.rule("C10.o", "no function that may issue and await a command is called while the command encoder is held", 20)
+	ruleNoCommandWhileEncoding(c, "C10.o")
+	c.rule("C10.p", "a continuation request taken off the queue is resolved (Done/Cancel) on every path", 1)
+	ruleContReqResolved(c, "C10.p")
 }
 
 // ruleRegisterBeforeFlush: in every client function that both registers
